@@ -211,10 +211,13 @@ def make_trace(chk, rng, machine, nets, net_keys, placements, allocations, cons,
 
 def run(chk):
     rng = random.Random(chk.seed)
-    import os
-    from .. import tlc as _tlc
-    if os.path.exists(os.path.join(_tlc.SPEC_DIR, "MulticastDesign.tla")):
-        chk.design("MulticastDesign", "MulticastDesign_%s.cfg" % chk.tier, expect_actions=("Round",))
+    chk.design("MulticastDesign", "MulticastDesign_%s.cfg" % chk.tier, expect_actions=("Grow", "Round", "Quiesce"))
+    # removing entries that default routing cannot stand in for must be refuted
+    r = chk.design("MulticastDesign", "MulticastDesign_wrongdrop.cfg", allow_error=True, label="expected to fail")
+    if r.ok or "NoTrouble" not in (r.error or ""):
+        from ..core import MachineryError
+        raise MachineryError("MulticastDesign with the wrong removal rule should violate NoTrouble: %s" % r.error)
+    chk.count("design variants refuted as expected (wrong default-route removal rule)")
     traces = []
     nprob = chk.pick(500, 6000)
     ended = {}
